@@ -15,7 +15,10 @@ the rings fill up: a receiver waits for space only with the incoming ring comple
 bytes: 16 flood packets and the first 256 bytes of the 17th), otherwise it is inside a socket read.
 -/
 import Mqtt.Model.Lifecycle
+import Mqtt.Model.Takeover
+import Mqtt.Model.Broker
 import Mqtt.Spec.Lifecycle
+import Mqtt.Spec.Broker
 import Mqtt.Driver.Util
 
 namespace Mqtt.Driver.Life
@@ -142,6 +145,129 @@ def outcome (cond cause order : String) : String :=
        if obs then "witness-alive=1" else "witness-alive=-",
        s!"srvclose={b01 srv}", s!"goroutines-left={goroutinesLeft s3}"])
 
+/-! ## Held take-over (`life takeover <variant>`)
+
+Three models meet here, each for what it knows.  `Model/Takeover.lean`: `disconnectClient` as a program over
+connections that are live, ENDING (teardown begun, not finished) or stopped - whether the new handshake goes on
+while the old teardown is pending (`early`), and that it is finished when `disconnectClient` returns (`torn`).
+`Model/Lifecycle.lean`: the connection whose processor is parked with its DISCONNECT queued (`disc`), and
+`Server.Close`.  `Model/Broker.lean`: what the connections are sent - the will, SessionPresent, the kept
+subscription - on the scenario's events, with the old connection's end as the atomic `stop` that the two other
+models justify.  The specification line takes the same broker-level tokens from the reference broker. -/
+
+open Mqtt.Iface.Broker in
+def bytes (s : String) : Mqtt.Iface.Broker.Bytes := s.toUTF8.toList
+
+open Mqtt.Iface.Broker in
+def conn (cid : String) (clean : Bool) (will : Option (String × String)) : First :=
+  .connect { protoName := bytes "MQTT", version := 4, clean := clean, clientId := bytes cid,
+             will := will.map fun (t, p) => { topic := bytes t, payload := bytes p, qos := 0, retain := false } }
+
+open Mqtt.Iface.Broker in
+/-- the scenario's events; connection numbers as the harness's: 1 witness, 2 slow subscriber, 4 = A, 5 = B, 6 = C -/
+def takeoverEvents (variant : String) : List Ev :=
+  let common : List Ev :=
+    [.first 1 (conn "witness" true none) true, .packet 1 (.subscribe 1 [(bytes "will/#", 0)]),
+     .first 2 (conn "slow" true none) true, .packet 2 (.subscribe 1 [(bytes "w", 0)])]
+  if variant == "disc" then
+    common ++ [.first 4 (conn "X" true (some ("will/x", "gone"))) true,
+               .packet 4 (.publish { qos := 0, topic := bytes "w", payload := bytes "from-A" }),
+               .packet 4 .disconnect,
+               .first 5 (conn "X" false none) true]
+  else
+    common ++ [.first 4 (conn "X" true (some ("w", "gone"))) true,
+               .close 4,
+               .first 5 (conn "X" false none) true,
+               .packet 5 (.subscribe 1 [(bytes "keep", 0)]),
+               .packet 5 .disconnect,
+               .first 6 (conn "X" false none) true,
+               .packet 1 (.publish { qos := 0, topic := bytes "keep", payload := bytes "kept" })]
+
+structure BrokerTokens where
+  will : Bool
+  sp2 : Option Bool
+  sp3 : Option Bool
+  sub3 : Bool
+
+def spStr : Option Bool → String
+  | some b => b01 b
+  | none => "-"
+
+open Mqtt.Iface.Broker in
+def modelTokens (variant : String) : BrokerTokens :=
+  let outs := (Mqtt.Model.Broker.run {} (takeoverEvents variant)).2.flatten
+  let gotPub (c : Nat) (t p : String) : Bool := outs.any fun o =>
+    match o with
+    | .send c' (.publish q) => c' == c && q.topic == bytes t && q.payload == bytes p
+    | _ => false
+  let sp (c : Nat) : Option Bool := outs.findSome? fun o =>
+    match o with
+    | .send c' (.connack b 0) => if c' == c then some b else none
+    | _ => none
+  { will := if variant == "disc" then gotPub 1 "will/x" "gone" else gotPub 2 "w" "gone",
+    sp2 := sp 5, sp3 := sp 6, sub3 := gotPub 6 "keep" "kept" }
+
+open Mqtt.Iface.Broker in
+def specTokens (variant : String) : BrokerTokens :=
+  let outs := ((takeoverEvents variant).foldl (fun (acc : Mqtt.Spec.Broker.S × List Mqtt.Spec.Broker.SOut) e =>
+    let r := Mqtt.Spec.Broker.step acc.1 e; (r.1, acc.2 ++ r.2)) ({}, [])).2
+  let gotPub (c : Nat) (t p : String) : Bool := outs.any fun o =>
+    match o with
+    | .deliver c' copies => c' == c && copies.any fun q => q.topic == bytes t && q.payload == bytes p
+    | _ => false
+  let sp (c : Nat) : Option Bool := outs.findSome? fun o =>
+    match o with
+    | .send c' (.connack b 0) => if c' == c then some b else none
+    | _ => none
+  { will := if variant == "disc" then gotPub 1 "will/x" "gone" else gotPub 2 "w" "gone",
+    sp2 := sp 5, sp3 := sp 6, sub3 := gotPub 6 "keep" "kept" }
+
+def brokerPart (variant : String) (t : BrokerTokens) : List String :=
+  if variant == "srvclose" then []
+  else if variant == "disc" then [s!"will={b01 t.will}", s!"sp2={spStr t.sp2}"]
+  else [s!"will={b01 t.will}", s!"sp2={spStr t.sp2}", s!"sp3={spStr t.sp3}", s!"sub3={b01 t.sub3}"]
+
+open Mqtt.Model.Takeover in
+/-- A's connection when B's CONNECT arrives: teardown begun by its own goroutine and parked in the will publish
+(`resume`, `srvclose`), or live with its processor parked and the DISCONNECT queued (`disc`) -/
+def oldConn (variant : String) : Svc := ⟨4, 0, if variant == "disc" then .live else .ending⟩
+
+/-- `disc`: A in the life-cycle model - a 11-byte PUBLISH being delivered to a connection that does not read, the
+DISCONNECT behind it in the incoming ring -/
+def discState : St :=
+  { sh := { baseSh with extBlocked := true, inR := { buf := 13 }, stream := [⟨2, 11, .normal [.foreign]⟩, ⟨2, 2, .disconnect⟩] },
+    proc := .acts [.foreign], ks := [.idle] }
+
+open Mqtt.Model.Takeover in
+def takeoverOutcome (variant : String) : String :=
+  let a := oldConn variant
+  -- is A's teardown unfinished while the hold-up lasts; does the handshake go on regardless
+  let (held, lcWill, lcTorn) :=
+    if variant == "disc" then
+      let s1 := drain cfg fuel (apply discState (.serverClose 0))
+      let s2 := drain cfg fuel (apply s1 (.extBlock false))
+      (!Final s1, s2.sh.effects.contains .will, Final s2 && TornDown s2)
+    else (a.st != .stopped, true, true)
+  -- the handshake is past `disconnectClient` although A is not waited for
+  let waited := collected disconnectProgram a.cid a && disconnectProgram.contains .wait
+  let early := held && !waited
+  let res := after disconnectProgram a.cid [a]
+  let torn := lcTorn && (match res with | some r => r.all (fun s => s.st == .stopped) | none => false)
+  let t := modelTokens variant
+  let t := { t with will := t.will && lcWill }
+  -- everything ends: Server.Close (while `disconnectClient` waits: it must get Server.mu)
+  let s3 := drain cfg fuel (serverClose { sh := baseSh, ks := [.idle] })
+  let srv := s3.ks[0]? == some .finished &&
+    (variant != "srvclose" || closeReachesLoops disconnectProgram (disconnectProgram.idxOf .wait) closeProgram)
+  String.intercalate " " ([s!"held={b01 held}", s!"early={b01 early}"] ++
+    (if variant == "srvclose" then [] else [s!"torn={b01 torn}"]) ++ brokerPart variant t ++
+    [s!"srvclose={b01 srv}", s!"goroutines-left={goroutinesLeft s3}"])
+
+def takeoverExpected (variant : String) : String :=
+  String.intercalate " " (Mqtt.Spec.Lifecycle.takeoverFixed ++
+    (if variant == "srvclose" then [] else ["torn=1"]) ++ brokerPart variant (specTokens variant) ++
+    Mqtt.Spec.Lifecycle.takeoverEnd)
+
 def handle (ws : List String) : String × String :=
   match ws with
   | ["reset"] => ("reset", "reset")
@@ -151,6 +277,9 @@ def handle (ws : List String) : String × String :=
   | ["run", cond, cause, order] =>
     if Mqtt.Spec.Lifecycle.conds.contains cond && Mqtt.Spec.Lifecycle.causes.contains cause
     then (outcome cond cause order, Mqtt.Spec.Lifecycle.expected cause) else ("bad-op", "bad-op")
+  | ["takeover", variant] =>
+    if Mqtt.Spec.Lifecycle.takeoverVariants.contains variant
+    then (takeoverOutcome variant, takeoverExpected variant) else ("bad-op", "bad-op")
   | _ => ("bad-op", "bad-op")
 
 end Mqtt.Driver.Life
